@@ -45,11 +45,80 @@ def check_C01(c):
                          "bounds: rank<=4, dims<=3 (rank 4: dims<=2) quick; dims<=4 thorough"]
 
 
-CHECKS = {"C01": check_C01}
+def check_C02(c):
+    q = c.quick
+    inv = ["TypeOK", "CopiesDisjoint", "ViewsAreSubselections", "Emit"]
+    base = {"MinRank": 1, "Ctors": {S("C"), S("F")}, "MaxStep": 2}
+    # (a) the complete argument space on low ranks, sources row-/column-major and lazily transposed
+    k1 = dict(base, MaxRank=2, MaxDim=3 if q else 4, MaxDimHi=2, FullRank=2, Depth=1, WithT=True)
+    if not q:
+        k1["MaxStep"] = 3
+    cases = c.tlc("MC_slice", "slice-full", k1, inv)
+    c.replay("slice-full", cases, dtypes="sizes", pals="ident", rotate=3 if q else 0)
+    # (b) higher ranks: one axis over the complete space, the others over a palette; nesting
+    k2 = dict(base, MinRank=3, MaxRank=3 if q else 4, MaxDim=2, MaxDimHi=2 if q else 3, FullRank=0, Depth=1, WithT=not q)
+    cases = c.tlc("MC_slice", "slice-hi", k2, inv)
+    c.replay("slice-hi", cases, dtypes="sizes", pals="ident", rotate=2 if q else 0)
+    # (c) nested slicing (slice of slice of transpose) to depth 3 over the palette
+    k3 = dict(base, MinRank=1, MaxRank=2 if q else 3, MaxDim=3, MaxDimHi=3, FullRank=0, Depth=3, WithT=True, MaxStep=1)
+    cases = c.tlc("MC_slice", "slice-nested", k3, inv)
+    c.replay("slice-nested", cases, dtypes="sizes", pals="ident", rotate=2 if q else 0)
+    c.rep.rule = ("TLC enumerates sources {row-major, column-major, lazily transposed, slice} x shapes x the complete per-axis "
+                  "argument space (nil, index -1..d, start -1..d, end 0..d+1, step 0..MaxStep, fewer slices than axes) and nested "
+                  "slicing to depth 3; each emitted behaviour is executed on the real library and every live tensor plus every "
+                  "backing is compared (shape modulo droppable axes, elements in row-major order, rejection set). non-trivial = "
+                  "executions whose program has at least two steps and passed every comparison")
+    c.rep.assumptions = ["start = end (empty range) and negative steps are left open by the statement: not compared",
+                         "a result shape that differs from the model's only by axes the statement allows to drop is accepted"]
+
+
+def check_C03(c):
+    q = c.quick
+    inv = ["TypeOK", "CopiesDisjoint", "PendConsistent", "ComposeLaw", "InverseLaw", "Emit"]
+    jobs = []
+    ALL = {S("T"), S("UT"), S("Transpose"), S("Materialize"), S("SafeT")}
+    # (a) all programs of length <= 2 (quick) / 3 (thorough) for rank <= 3, row- and column-major
+    jobs.append(("trans-lo", dict(MinRank=0, MaxRank=3, MaxDim=3, MaxDimHi=3, HiRank=3, Ctors={S("C"), S("F")},
+                                  MaxLen=2 if q else 3, WithSlice=False, PermPalette=False, Alphabet=ALL, BothTargets=not q)))
+    # (b) axis rolling
+    jobs.append(("trans-roll", dict(MinRank=2, MaxRank=3, MaxDim=3, MaxDimHi=3 if not q else 2, HiRank=3, Ctors={S("C")},
+                                    MaxLen=2, WithSlice=False, PermPalette=False, Alphabet={S("RollAxis"), S("UT"), S("T")},
+                                    BothTargets=False)))
+    # (c) sliced sources
+    jobs.append(("trans-sliced", dict(MinRank=2, MaxRank=3, MaxDim=3, MaxDimHi=2, HiRank=3, Ctors={S("C")},
+                                      MaxLen=2, WithSlice=True, PermPalette=False,
+                                      Alphabet=ALL - ({S("SafeT")} if q else set()), BothTargets=False)))
+    # (d) ranks 4 and 5 with a permutation palette
+    jobs.append(("trans-hi", dict(MinRank=4, MaxRank=4 if q else 5, MaxDim=2, MaxDimHi=2, HiRank=4, Ctors={S("C")},
+                                  MaxLen=2, WithSlice=False, PermPalette=True, Alphabet=ALL, BothTargets=False)))
+    if not q:
+        jobs.append(("trans-len4", dict(MinRank=2, MaxRank=3, MaxDim=3, MaxDimHi=2, HiRank=3, Ctors={S("C")},
+                                        MaxLen=4, WithSlice=False, PermPalette=True,
+                                        Alphabet={S("T"), S("UT"), S("Transpose"), S("Materialize")}, BothTargets=False)))
+    for name, k in jobs:
+        cases = c.tlc("MC_trans", name, k, inv)
+        for tags in (("verif",), ("verif", "inplacetranspose")):
+            c.replay(name + ":" + "+".join(tags), cases, tags=tags, dtypes="sizes", pals="ident", rotate=2 if q else 0)
+    c.rep.rule = ("TLC enumerates programs over {T(p), UT, Transpose, Materialize, SafeT(p), RollAxis} on contiguous, sliced and "
+                  "column-major sources for every shape and permutation in bounds; each behaviour is executed in the default and the "
+                  "inplacetranspose build, for element sizes 1,2,4,8,16 bytes and strings; every live tensor, and the caller's backing "
+                  "(storage order after physical moves) is compared after the program")
+    c.rep.assumptions = ["invalid permutations are left open at Level 1 (their rejection is checked under C13)"]
+
+
+CHECKS = {"C01": check_C01, "C02": check_C02, "C03": check_C03}
 
 HOOK_COMMITS = []
 NOT_YET = {}
 LEVELS = {
+    "C02": {"ref": "DESIGN.md 4 C02",
+            "technique": "TLC-enumerated slicing behaviours (MC_slice over Tensor.tla) replayed on the real library",
+            "text": "bounded exhaustive model checking: the complete per-axis argument space of the statement on every source layout, nested to depth 3; every emitted behaviour is executed and every live tensor and backing compared with the specification's state",
+            "note": "bounded (rank<=4, dims<=3..4, steps<=3); empty ranges and negative steps are left open by the statement"},
+    "C03": {"ref": "DESIGN.md 4 C03",
+            "technique": "TLC-enumerated transposition programs (MC_trans) replayed in the default and inplacetranspose builds",
+            "text": "bounded exhaustive model checking: all programs over T/UT/Transpose/Materialize/SafeT/RollAxis up to length 2-4 for every shape and permutation in bounds, on contiguous, sliced and column-major sources, in two builds and six element sizes; storage order after physical moves is observed through the caller's backing",
+            "note": "bounded (rank<=5, dims<=3, length<=4); the algebraic laws of the oracle (composition, inverse, pending consistency) are TLC invariants"},
     "C01": {"ref": "DESIGN.md 4 C01",
             "technique": "TLC-enumerated behaviours of the TLA+ tensor machine (MC_addr) replayed on the real library",
             "text": "bounded exhaustive model checking: TLC enumerates every shape/constructor/layout in bounds and the complete coordinate->cell table of each; every table entry is executed (At and SetAt) on the real tensor for every element type, with a full snapshot of all storage around each write",
